@@ -55,8 +55,10 @@ POOL: List[str] = [
     # 9: multi-way branches (successor order must follow the label list, not a set of names)
     P + "txn FirstValid\nswitch zeta alpha mid\ntxn RekeyTo\n" + Z + "\n==\nassert\nint 1\nreturn\nzeta:\nint 1\nint 2\ntxn LastValid\nmatch q_b q_a\n"
         "int 1\nreturn\nalpha:\ntxn Fee\nint 1000\n<=\nreturn\nmid:\nint 1\nreturn\nq_a:\nint 1\nreturn\nq_b:\ntxn RekeyTo\n" + Z + "\n==\nreturn\n",
+    # 10: validates its own RekeyTo and Fee through `gtxn 0` with the own index pinned, nothing else
+    P + "txn GroupIndex\nint 0\n==\nassert\ngtxn 0 RekeyTo\n" + Z + "\n==\nassert\ngtxn 0 Fee\nint 1000\n<=\nassert\nint 1\nreturn\n",
 ]
-ALWAYS = [9]  # pool members that take part in the per-contract items of the quick tier too
+ALWAYS = [9, 10]  # pool members that take part in the per-contract items of the quick tier too
 DETS = ("rekey-to", "can-close-account", "can-close-asset", "missing-fee-check", "is-updatable", "is-deletable",
         "unprotected-updatable", "unprotected-deletable", "group-size-check", "constant-gtxn", "sender-access", "self-access")
 
@@ -220,7 +222,7 @@ def items(tier: str) -> List[Any]:
         for seq in itertools.product(range(k), repeat=n):
             out.append(("history", list(seq)))
     others = [d for d in DETS if d != "group-size-check"]
-    for contract in (3, 2) if tier == "quick" else (3, 2, 0, 5):
+    for contract in (3, 10) if tier == "quick" else (3, 2, 0, 5, 10):
         for a, b in itertools.combinations(others, 2):
             for perm in itertools.permutations((a, b, "group-size-check")):
                 out.append(("detorder", contract, list(perm)))
@@ -228,6 +230,14 @@ def items(tier: str) -> List[Any]:
             out.append(("detorder", contract, [a, b]))
         for d in DETS:
             out.append(("detorder", contract, [d, d]))
+    # the same orders through Tealer.register_detector / run_detectors (the route of the command line)
+    for contract in (10,) if tier == "quick" else (10, 3, 5):
+        for a, b in itertools.permutations(DETS, 2):
+            out.append(("register", contract, [a, b]))
+        for tri in itertools.permutations(("can-close-asset", "can-close-account", "rekey-to", "group-size-check"), 3):
+            out.append(("register", contract, list(tri)))
+        out.append(("register", contract, list(DETS)))
+        out.append(("register", contract, list(reversed(DETS))))
     per_contract = sorted(set(range(k)) | set(ALWAYS))
     for contract in per_contract:
         for which in ("forward", "backward", "called_subroutines"):
@@ -306,6 +316,34 @@ def worker(item: Any, res: runner.Result) -> None:  # pylint: disable=too-many-l
         if d:
             res.violation("C14.detector-order-changes-result", item, line=repr(order), contract=ci, differs=d)
         res.count("analyses")
+    elif kind == "register":
+        _, ci, order = item
+        from mc import harness  # pylint: disable=import-outside-toplevel
+        from tealer.utils.command_line.common import init_tealer_from_single_contract  # pylint: disable=import-outside-toplevel
+
+        d = []
+        try:
+            with harness.capture():
+                tl = init_tealer_from_single_contract(POOL[ci], f"p{ci}")
+                for det in order:
+                    tl.register_detector(harness.DETECTORS.get(det) or harness.OTHER_DETECTORS[det])
+                results = tl.run_detectors()
+            if len(results) != len(order):
+                d.append("number-of-results")
+            for det, outs in zip(order, results):
+                outs = outs if isinstance(outs, list) else [outs]
+                paths = [[b.idx for b in p] for o in outs for p in getattr(o, "paths", [])]
+                js = hashlib.sha1(json.dumps([o.to_json() for o in outs], indent=2).encode()).hexdigest()
+                if paths != base[ci]["detectors"][det][0]:
+                    d.append(f"paths:{det}")
+                elif js != base[ci]["detectors"][det][1]:
+                    d.append(f"json:{det}")
+        except BaseException as e:  # pylint: disable=broad-except
+            d.append("registration-or-run-raised:" + repr(e)[:200])
+        res.count("snapshots_compared")
+        res.count("analyses")
+        if d:
+            res.violation("C14.detector-order-changes-result", item, line=repr(order), contract=ci, differs=d, route="register_detector/run_detectors")
     elif kind == "iterorder":
         _, ci, which, pi = item
 
